@@ -68,10 +68,10 @@ def C04_full (cfg : Cfg) : Prop :=
 
 private def mk (name : Bytes) (m : Method) (prompt : Bool) (ncmds : Nat) : Task :=
   { name, label := [], method := m, sources := [⟨false, [0]⟩], generates := [], status := [],
-    prompt, dir := none, cmds := List.replicate ncmds ⟨[], none⟩ }
+    prompt, dir := none, cmds := List.replicate ncmds ⟨[], none, false⟩ }
 private def pj (ts : List Task) : Proj := { base := [(0, [97])], dirOf := [], dirLen := [], tasks := ts }
 private def w0 : Step := .op (.write 0 [1] 5)
-private def env (n : Nat) : Env := ⟨n, true, none, none, false⟩
+private def env (n : Nat) : Env := ⟨n, true, none, none, false, true⟩
 private def run (i n : Nat) : Step := .inv i .run (env n)
 
 /-- a history after which task `i` is skipped although `goodRun` fails -/
@@ -148,8 +148,8 @@ theorem C04_equal_labels_old_rule :
     oldSumKey (mk [120] .checksum false 1) = oldSumKey { mk [121] .checksum false 1 with label := [120] } := by decide
 
 /- method timestamp with a `generates` entry: path 1, written by the first of two commands -/
-private def tg : Task := { mk [120] .timestamp false 1 with generates := [⟨false, [1]⟩], cmds := [⟨[(1, [9])], none⟩] }
-private def tg2 : Task := { tg with cmds := [⟨[(1, [9])], none⟩, ⟨[], none⟩] }
+private def tg : Task := { mk [120] .timestamp false 1 with generates := [⟨false, [1]⟩], cmds := [⟨[(1, [9])], none, false⟩] }
+private def tg2 : Task := { tg with cmds := [⟨[(1, [9])], none, false⟩, ⟨[], none, false⟩] }
 
 /-- (REPAIRED by TS1) once the marker existed a deleted `generates` file went unnoticed: the former
 witness is no longer bad. -/
@@ -316,7 +316,10 @@ theorem inv_step (hd : KeysDistinct pr) (st : Step) (s : State) (ha : Allowed st
             · intro hcs
               rw [onError_sums, if_pos hcs]; simp
           | run =>
-            rw [invoke_run Cfg.fixed H pr htj]
+            cases hce : checkErr tj e s.files with
+            | true => rw [invoke_run_err Cfg.fixed H pr htj e s hce]; exact hinv
+            | false =>
+            rw [invoke_run Cfg.fixed H pr htj e s hce]
             obtain ⟨hclog, _, hcother, _, hcskip⟩ := isUpToDate_effect H pr tj e.now s
             split
             · rename_i hup
@@ -358,7 +361,10 @@ theorem inv_step (hd : KeysDistinct pr) (st : Step) (s : State) (ha : Allowed st
             | true => exact Or.inl ⟨rfl, Or.inr (by rw [(hok rfl).1])⟩
             | false => exact Or.inr ⟨rfl, by rw [(hfail rfl).1, if_pos hcs]; simp⟩
         | run =>
-          rw [invoke_run Cfg.fixed H pr htj]
+          cases hce : checkErr tj e s.files with
+          | true => rw [invoke_run_err Cfg.fixed H pr htj e s hce]; exact hinv
+          | false =>
+          rw [invoke_run Cfg.fixed H pr htj e s hce]
           obtain ⟨hclog, hcfiles, hcother, hckey, hcskip⟩ := isUpToDate_effect H pr tj e.now s
           split
           · rename_i hup
@@ -427,11 +433,11 @@ theorem C04_partial (hd : NamesDistinct pr) (hist : List Step) (ha : ∀ st ∈ 
 date and is cancelled at the prompt exits `cancelled`, starts no command, logs no attempt, and
 the checksum the check had recorded is gone again (any wiring, any state, any hash). -/
 theorem C04_prompt_declined_no_entry (cfg : Cfg) {i : Nat} {t : Task} (ht : pr.tasks[i]? = some t) (hcs : Cs t)
-    (e : Env) (s : State) (hdec : Declined t e) (hns : (invoke cfg H pr i .run e s).2.skipped = false) :
+    (e : Env) (hg : e.gset = true) (s : State) (hdec : Declined t e) (hns : (invoke cfg H pr i .run e s).2.skipped = false) :
     aget (invoke cfg H pr i .run e s).1.sums (sumKey t) = none ∧
     (invoke cfg H pr i .run e s).2.exit = .cancelled ∧ (invoke cfg H pr i .run e s).2.ran = [] ∧
     (invoke cfg H pr i .run e s).1.log = s.log := by
-  rw [invoke_run cfg H pr ht] at hns ⊢
+  rw [invoke_run cfg H pr ht e s (checkErr_gset t e s.files hg)] at hns ⊢
   by_cases hup : ((isUpToDate H pr t false e.now s).2 && !interrupted t e) = true
   · rw [if_pos hup] at hns; cases hns
   · rw [if_neg hup, runBody_declined cfg H pr i t e _ hdec]
@@ -441,9 +447,9 @@ theorem C04_prompt_declined_no_entry (cfg : Cfg) {i : Nat} {t : Task} (ht : pr.t
 
 /-- … so **the next run is not skipped** on account of the cancelled one. -/
 theorem C04_prompt_declined_next_runs (cfg : Cfg) {i : Nat} {t : Task} (ht : pr.tasks[i]? = some t) (hcs : Cs t)
-    (e e2 : Env) (s : State) (hdec : Declined t e) (hns : (invoke cfg H pr i .run e s).2.skipped = false) :
+    (e e2 : Env) (hg : e.gset = true) (s : State) (hdec : Declined t e) (hns : (invoke cfg H pr i .run e s).2.skipped = false) :
     (invoke cfg H pr i .run e2 (invoke cfg H pr i .run e s).1).2.skipped = false := by
-  have hnone := (C04_prompt_declined_no_entry H pr cfg ht hcs e s hdec hns).1
+  have hnone := (C04_prompt_declined_no_entry H pr cfg ht hcs e hg s hdec hns).1
   generalize (invoke cfg H pr i .run e s).1 = s1 at hnone
   cases hsk : (invoke cfg H pr i .run e2 s1).2.skipped with
   | false => rfl
@@ -466,14 +472,14 @@ one attempt is logged as NOT ok, and the checksum the check had recorded is gone
 any state, any hash).  (A tree that returns the context's error before the command loop — without the
 clean-up — keeps the entry: the next run would skip a task whose commands never ran.) -/
 theorem C04_sibling_cancelled_no_entry (cfg : Cfg) {i : Nat} {t : Task} (ht : pr.tasks[i]? = some t) (hcs : Cs t)
-    (e : Env) (s : State) (hcan : e.cancelled = true) (hst : t.status.isEmpty = false) (hcmds : t.cmds ≠ [])
+    (e : Env) (hg : e.gset = true) (s : State) (hcan : e.cancelled = true) (hst : t.status.isEmpty = false) (hcmds : t.cmds ≠ [])
     (hp : t.prompt = false ∨ e.yes = true) :
     aget (invoke cfg H pr i .run e s).1.sums (sumKey t) = none ∧
     (invoke cfg H pr i .run e s).2.exit = .failed ∧ (invoke cfg H pr i .run e s).2.ran = [] ∧
     (invoke cfg H pr i .run e s).2.skipped = false ∧
     (invoke cfg H pr i .run e s).1.log = s.log ++ [⟨i, fpNow H pr t s.files, e.now, false⟩] := by
   have hint : interrupted t e = true := by simp [interrupted, hcan, hst]
-  rw [invoke_run cfg H pr ht]
+  rw [invoke_run cfg H pr ht e s (checkErr_gset t e s.files hg)]
   simp only [hint, Bool.not_true, Bool.and_false, Bool.false_eq_true, if_false]
   have hcond : (t.prompt && !false && !e.yes) = false := by
     rcases hp with h | h <;> simp [h]
@@ -505,6 +511,41 @@ theorem C04_sibling_cancelled_not_bad :
      (invoke Cfg.fixed hId (pj [tt]) 0 .run (env 99) (runHist Cfg.fixed hId (pj [tt]) hist State.empty).1).2.skipped = false) := by
   decide
 
+/-! ## An error of the up-to-date check (F8D) -/
+
+/-- **a check that ends in an error leaves nothing behind**: when a `generates` entry cannot be
+expanded (`${G:?}…` while `G` is not set — `checkErr`), the run exits with the error of the check
+(`checkError`), starts no command, logs no attempt, and — F8D: the entries are looked at BEFORE the
+checksum is recorded — the state is exactly what it was. -/
+theorem C04_check_error_leaves_nothing (cfg : Cfg) {i : Nat} {t : Task} (ht : pr.tasks[i]? = some t)
+    (e : Env) (s : State) (hce : checkErr t e s.files = true) :
+    (invoke cfg H pr i .run e s).1 = s ∧ (invoke cfg H pr i .run e s).2.exit = .checkError ∧
+    (invoke cfg H pr i .run e s).2.ran = [] ∧ (invoke cfg H pr i .run e s).2.skipped = false := by
+  rw [invoke_run_err cfg H pr ht e s hce]
+  exact ⟨rfl, rfl, rfl, rfl⟩
+
+/- sources `[0]`, generates `[1]` written `${G:?}/…` -/
+private def tGe : Task := { mk [120] .checksum false 1 with generates := [⟨false, [1]⟩], gguard := [0] }
+
+/-- the former witness of D-C04-check-error: the generates file is in place, the run WITHOUT `G` ends
+with the error of the check; with `G` set the next run is NOT skipped (and `checkErr` really holds in
+the first run: non-vacuity of `C04_check_error_leaves_nothing`) -/
+theorem C04_check_error_fixed :
+    let hist : List Step := [w0, .op (.write 1 [7] 6), .inv 0 .run { env 10 with gset := false }]
+    checkErr tGe { env 10 with gset := false } (runHist Cfg.fixed hId (pj [tGe]) [w0, .op (.write 1 [7] 6)] State.empty).1.files = true ∧
+    ¬ Bad Cfg.fixed (pj [tGe]) hist 0 tGe ∧ (runHist Cfg.fixed hId (pj [tGe]) hist State.empty).1.sums = [] ∧
+    (invoke Cfg.fixed hId (pj [tGe]) 0 .run (env 99) (runHist Cfg.fixed hId (pj [tGe]) hist State.empty).1).2.ran = [0] := by
+  decide
+
+/-- **HISTORICAL (before F8D — NOT the tree any more)**: the checksum had been recorded before the
+entries were looked at; from THAT state (`sumCheck` applied) the next run, with `G` set, is skipped
+although no command ever ran (`goodRun` is false) -/
+theorem C04_check_error_old_rule :
+    let s0 := (runHist Cfg.fixed hId (pj [tGe]) [w0, .op (.write 1 [7] 6)] State.empty).1
+    let sOld := (sumCheck hId (pj [tGe]) tGe false s0).1
+    (invoke Cfg.fixed hId (pj [tGe]) 0 .run (env 99) sOld).2.skipped = true ∧ goodRun hId (pj [tGe]) 0 tGe sOld = false := by
+  decide
+
 /-! ## Method timestamp after TS1–TS3: what is true now -/
 
 /-- **a declined prompt leaves no marker** (TS3, analogue of `C04_prompt_declined_no_entry`): a run
@@ -515,7 +556,7 @@ theorem C04_timestamp_declined_no_marker (cfg : Cfg) {i : Nat} {t : Task} (ht : 
     aget (invoke cfg H pr i .run e s).1.marks (tsKey t) = none ∧
     (invoke cfg H pr i .run e s).2.exit = .cancelled ∧ (invoke cfg H pr i .run e s).2.ran = [] ∧
     (invoke cfg H pr i .run e s).1.log = s.log ∧ (invoke cfg H pr i .run e s).1.files = s.files := by
-  rw [invoke_run cfg H pr ht] at hns ⊢
+  rw [invoke_run cfg H pr ht e s (checkErr_timestamp e s.files hts.1)] at hns ⊢
   by_cases hup : ((isUpToDate H pr t false e.now s).2 && !interrupted t e) = true
   · rw [if_pos hup] at hns; cases hns
   · rw [if_neg hup, runBody_declined cfg H pr i t e _ hdec]
@@ -531,7 +572,7 @@ theorem C04_timestamp_failed_no_marker (cfg : Cfg) {i : Nat} {t : Task} (ht : pr
     (hf : (invoke cfg H pr i m e s).2.exit = .failed) :
     aget (invoke cfg H pr i m e s).1.marks (tsKey t) = none := by
   rcases hm with rfl | rfl
-  · rw [invoke_run cfg H pr ht] at hf ⊢
+  · rw [invoke_run cfg H pr ht e s (checkErr_timestamp e s.files hts.1)] at hf ⊢
     by_cases hup : ((isUpToDate H pr t false e.now s).2 && !interrupted t e) = true
     · rw [if_pos hup] at hf; cases hf
     · rw [if_neg hup] at hf ⊢
@@ -583,7 +624,7 @@ theorem C04_timestamp_uptodate_check_pure (cfg : Cfg) {i : Nat} {t : Task} (ht :
     (hsk : (invoke cfg H pr i .run e s).2.skipped = true) : (invoke cfg H pr i .run e s).1 = s := by
   have hup := run_skipped cfg H pr ht e s hsk
   have hts' := tsUp_of_upToDate H pr hts false e.now s hup
-  rw [invoke_run cfg H pr ht, if_pos (run_skipped_cond cfg H pr ht e s hsk), isUpToDate_ts H pr hts]
+  rw [invoke_run cfg H pr ht e s (checkErr_timestamp e s.files hts.1), if_pos (run_skipped_cond cfg H pr ht e s hsk), isUpToDate_ts H pr hts]
   exact tsCheck_upToDate_pure t false e.now s (by rw [tsCheck_result]; exact hts')
 
 /-- a sequence of runs of task `i` -/
@@ -617,7 +658,7 @@ theorem C04_timestamp_marker_is_last_run (cfg : Cfg) {i : Nat} {t : Task} (ht : 
     aget (invoke cfg H pr i .run e s).1.marks (tsKey t) = some e.now := by
   have hup : ¬ (isUpToDate H pr t false e.now s).2 = true := fun h => by
     rw [tsUp_of_upToDate H pr hts false e.now s h] at hno; cases hno
-  rw [invoke_run cfg H pr ht, if_neg (fun h => hup (and_left_true h))] at h1 h2 ⊢
+  rw [invoke_run cfg H pr ht e s (checkErr_timestamp e s.files hts.1), if_neg (fun h => hup (and_left_true h))] at h1 h2 ⊢
   rw [runBody_marks_kept cfg H pr i t e _ h1 h2, isUpToDate_ts H pr hts]
   exact tsCheck_stored t e.now s (by rw [tsCheck_result]; exact hno)
 
@@ -753,7 +794,7 @@ theorem invTs_step (hd : TsKeysDistinct pr) {i : Nat} {t : Task} (ht : pr.tasks[
             rw [invoke_force Cfg.fixed H pr htj]
             exact invTs_body H pr hts e hk s hle
           | run =>
-            rw [invoke_run Cfg.fixed H pr htj]
+            rw [invoke_run Cfg.fixed H pr htj e s (checkErr_timestamp e s.files hts.1)]
             split
             · rename_i hup
               have hup' := tsUp_of_upToDate H pr hts false e.now s (and_left_true hup)
